@@ -48,122 +48,312 @@ def run(run):
     addr_variants = [v["name"] for v in defadt["variants"] if any(f["name"] == "address" for f in v["fields"])]
     run.floor("Def variants with an address", len(addr_variants), 2)
 
+    from .lib import peval as PE
+    from .lib import numflow as NF
+
+    def rootid(n):
+        """local behind clones / borrows / field projections"""
+        n = T.peel(n)
+        while n.get("k") == "Call" and n.get("n") in ("clone", "to_owned", "cloned") and n.get("a"):
+            n = T.peel(n["a"][0])
+        return T.root_var_id(n)
+
+    def param_id(fn, name):
+        for p_ in fn["params"]:
+            if p_.get("p"):
+                for b in T.pat_bindings(p_["p"]):
+                    if b[1] == name:
+                        return b[0]
+        return None
+
+    def taint_test(n):
+        """a boolean expression that is (or wraps, e.g. through `any(|c| ..is_tainted())`) a taint test"""
+        if n.get("k") != "Call" or F.ty(n) != "bool":
+            return False
+        if n.get("n") in ("is_tainted", "check_extern_parameters_for_taint", "check_generic_function_params_for_taint", "check_return_values_for_taint"):
+            return True
+        for a in n.get("a", []):
+            a = T.peel(a)
+            if a.get("k") == "Closure":
+                try:
+                    if any(T.is_call(y, "is_tainted") for y in T.walk(F.closure_by_path(a["d"])["body"])):
+                        return True
+                except T.AnchorMissing:
+                    pass
+        return False
+
+    def scenario(fn, enum_nodes, tainted, extra=None):
+        """results and reachable nodes of fn when the nodes in enum_nodes (id -> variant) have the given variants, every taint
+        test is `tainted`, and the tracked state is not empty"""
+        hits = {"taint": 0}
+
+        def assume(n):
+            if id(n) in enum_nodes:
+                return ("enum", enum_nodes[id(n)])
+            if taint_test(n):
+                hits["taint"] += 1
+                return ("bool", tainted)
+            if n.get("k") == "Call" and n.get("n") == "is_empty" and F.ty(n) == "bool" and n.get("a") and "State" in F.ty(T.peel(n["a"][0])):
+                return ("bool", False)
+            if extra is not None:
+                return extra(n)
+            return None
+        res, nodes = PE.Spec(F, assume=assume).results(fn["body"], {})
+        return res, nodes, hits
+
+    def scrutinees_of(fn, adt_suffix):
+        ms = T.find_matches(fn["body"], adt_suffix=adt_suffix, deep=True) if "deep" in T.find_matches.__code__.co_varnames else T.find_matches(fn["body"], adt_suffix=adt_suffix)
+        out = {}
+        for m in ms:
+            out[id(m["e"])] = m
+            out[id(T.peel(m["e"]))] = m
+        # if-let / let-else on the same type
+        for n in T.walk_fn(F, fn):
+            if n.get("k") == "Let" and T.pat_mentions_adt(n["p"], adt_suffix):
+                out[id(n["e"])] = n
+                out[id(T.peel(n["e"]))] = n
+        return out
+
     def r1():
         fn = F.fn("update_def_post", mod=CTX)
-        ms = T.find_matches(fn["body"], adt_suffix="def::Def")
-        if not ms:
-            raise T.AnchorMissing("no match over Def in cwe_476 update_def_post")
-        m = ms[0]
-        sy = S.Sym(F)
-        env = {}
-        sy.term(fn["body"], env)
-        for v in addr_variants:
+        scr = scrutinees_of(fn, "def::Def")
+        if not scr:
+            raise T.AnchorMissing("update_def_post does not inspect the Def")
+        flow = NF.Flow(F, fn)
+        site = F.loc(fn["body"])
+        old_id, new_id = param_id(fn, "old_state"), param_id(fn, "new_state")
+        all_variants = [v["name"] for v in defadt["variants"]]
+        for v in all_variants:
+            enum_nodes = {k: v for k in scr}
+            is_sink = v in addr_variants
             key = "update_def_post|%s" % v
-            hit = None
-            for arm in m["arms"]:
-                if v not in T.pat_variant_names(arm["p"]) or "g" not in arm:
+            res_t, nodes_t, hits_t = scenario(fn, enum_nodes, True)
+            res_f, nodes_f, hits_f = scenario(fn, enum_nodes, False)
+            kinds_t = [PE.option_kind(x) for x in res_t]
+            kinds_f = [PE.option_kind(x) for x in res_f]
+            if is_sink:
+                if not hits_t["taint"]:
+                    run.violated("R1", key, "a Def::%s whose address depends on the unchecked return value is not treated as a dereference: no taint test is reachable for it" % v, site)
                     continue
-                # the guard: <state>.eval(address).is_tainted()
-                g = sy.ev(arm["g"], env)
-                aid = set()
-                for vp in SL.variant_subpatterns(arm["p"], "def::Def", v):
-                    sp = T.pat_field(vp, "address")
-                    if sp is not None:
-                        aid |= {i for (i, n, _) in T.pat_bindings(sp)}
-                if is_call(g, "is_tainted") and is_call(g[2][0], "eval"):
-                    ev = g[2][0]
-                    on = ev[2][0]
-                    what = ev[2][1]
-                    # `what` must be the address slot
-                    addr_ok = (what[0] == "field" and what[2] in ("%s.address" % v,)) or (what[0] == "var" and what[2] in aid) or (what[0] == "field" and what[2].endswith(".address"))
-                    hit = (arm, on, addr_ok, what)
-                    break
-            if hit is None:
-                run.violated("R1", key, "a Def::%s whose address depends on the unchecked return value is not treated as a dereference (no arm guarded by eval(address).is_tainted())" % v, F.loc(m))
-                continue
-            arm, on, addr_ok, what = hit
-            site = F.loc(arm["b"])
-            run.check("R1", key + "|address-slot", addr_ok, "the sink test of Def::%s must evaluate the ADDRESS expression; it evaluates %s" % (v, fmt(what)), site)
-            defines_register = any(f["name"] == "var" for vv in defadt["variants"] if vv["name"] == v for f in vv["fields"])
-            state_ok = on[0] == "var" and (on[1] == "old_state" or (on[1] == "new_state" and not defines_register))
-            run.check("R1", key + "|state-before-def", state_ok, "the address must be evaluated on the state BEFORE the definition (old_state): for `R = Load(R)` the new state has already overwritten the tainted register; evaluated on `%s`" % fmt(on), site)
-            warns = any(T.is_call(x, "generate_cwe_warning") for x in T.walk(arm["b"]))
-            bt = sy.ev(arm["b"], env)
-            run.check("R1", key + "|warns-and-stops", warns and is_none_adt(bt), "a tainted dereference must generate a warning and stop the propagation (None)", site)
-        # everything else keeps the new state
-        last = m["arms"][-1]
-        lt = S.value(sy.ev(last["b"], env))
-        run.check("R1", "update_def_post|otherwise-new-state", lt[0] == "adt" and lt[2] == "Some" and dict(lt[3])["0"][0] == "var" and dict(lt[3])["0"][1] == "new_state", "definitions that are no sink continue with the NEW state; found %s" % fmt(lt), F.loc(last["b"]))
+                warns = any(T.is_call(x, "generate_cwe_warning") for x in nodes_t)
+                if kinds_t and all(k_ == "None" for k_ in kinds_t) and warns:
+                    run.holds("R1", key + "|warns-and-stops", "", site)
+                elif any(isinstance(k_, tuple) for k_ in kinds_t):
+                    run.violated("R1", key + "|warns-and-stops", "with a tainted address the Def::%s still propagates a state: a tainted dereference must generate a warning and stop the propagation (None)" % v, site)
+                elif not warns and kinds_t and all(k_ == "None" for k_ in kinds_t):
+                    run.violated("R1", key + "|warns-and-stops", "with a tainted address the Def::%s stops the propagation without generating the warning" % v, site)
+                else:
+                    run.undecided("R1", key + "|warns-and-stops", "results %s" % kinds_t, site)
+                # what is tested, and on which state
+                tests = [x for x in nodes_t if T.is_call(x, "is_tainted")]
+                evs = [y for t_ in tests for y in T.walk(flow.definition(t_["a"][0])) if T.is_call(y, "eval") and len(y["a"]) == 2]
+                aid = {b[0] for b in SL.slot_bindings(F, fn, "def::Def", v, "address")}
+                other_ids = set()
+                for fld in [f["name"] for vv in defadt["variants"] if vv["name"] == v for f in vv["fields"] if f["name"] not in ("address", "var")]:
+                    other_ids |= {b[0] for b in SL.slot_bindings(F, fn, "def::Def", v, fld)}
+
+                def roots(n, depth=0):
+                    out = set()
+                    for y in T.walk(n):
+                        if y.get("k") in ("Var", "Upvar"):
+                            out.add(y["id"])
+                            d = flow.definition(y)
+                            if d is not y and depth < 4 and d.get("k") not in ("Var", "Upvar"):
+                                out |= roots(d, depth + 1)
+                        if y.get("k") == "Field" and y.get("fn") == "address":
+                            out.add("field:address")
+                        if y.get("k") == "Field" and y.get("fn") == "value":
+                            out.add("field:value")
+                    return out
+                if not evs:
+                    run.undecided("R1", key + "|address-slot", "taint test without a visible eval()", site)
+                else:
+                    r_ = set()
+                    for e_ in evs:
+                        r_ |= roots(e_["a"][1])
+                    if (r_ & aid) or "field:address" in r_:
+                        run.holds("R1", key + "|address-slot", "", site)
+                    elif (r_ & other_ids) or "field:value" in r_:
+                        run.violated("R1", key + "|address-slot", "the sink test of Def::%s must evaluate the ADDRESS expression; it evaluates another slot of the Def" % v, site)
+                    else:
+                        run.undecided("R1", key + "|address-slot", "evaluated expression not traced to a slot of the Def", site)
+                    defines_register = any(f["name"] == "var" for vv in defadt["variants"] if vv["name"] == v for f in vv["fields"])
+                    recv = {T.root_var_id(e_["a"][0]) for e_ in evs}
+                    if recv == {old_id}:
+                        run.holds("R1", key + "|state-before-def", "", site)
+                    elif new_id in recv and defines_register:
+                        run.violated("R1", key + "|state-before-def", "the address is evaluated on the state AFTER the definition (new_state): for `R = Load(R)` the new state has already overwritten the tainted register", site)
+                    elif new_id in recv:
+                        run.holds("R1", key + "|state-before-def", "new_state is equivalent here: Def::%s defines no register" % v, site)
+                    else:
+                        run.undecided("R1", key + "|state-before-def", "state not traced", site)
+            # untainted address / no sink: the NEW state is propagated
+            kk = kinds_f if is_sink else [PE.option_kind(x) for x in scenario(fn, enum_nodes, True)[0]]
+            good = kk and all(isinstance(k_, tuple) and k_[1] is not None and rootid(k_[1]) == new_id for k_ in kk)
+            bad_old = any(isinstance(k_, tuple) and k_[1] is not None and rootid(k_[1]) == old_id for k_ in kk)
+            stops = any(k_ == "None" for k_ in kk)
+            k2 = "update_def_post|%s|otherwise-new-state" % v
+            if good:
+                run.holds("R1", k2, "", site)
+            elif bad_old:
+                run.violated("R1", k2, "a Def::%s that is no sink continues with the OLD state: the effect of the definition on the taint is lost" % v, site)
+            elif stops and not is_sink:
+                run.violated("R1", k2, "a Def::%s, which is never a dereference, can stop the propagation" % v, site)
+            elif stops:
+                run.violated("R1", k2, "a Def::%s with an untainted address stops the propagation" % v, site)
+            else:
+                run.undecided("R1", k2, "results %s" % kk, site)
 
     run.guarded("R1", r1)
 
     def r2():
         fn = F.fn("update_jump", mod=CTX)
-        ms = [n for n in T.walk(fn["body"]) if n.get("k") == "Match" and not n.get("ms", "").startswith("ForLoop")]
-        sy = S.Sym(F)
-        env = {}
-        sy.term(fn["body"], env)
-        taken = untaken = None
-        for m in ms:
-            for arm in m["arms"]:
-                if "g" not in arm:
-                    continue
-                g = sy.ev(arm["g"], env)
-                if not (is_call(g, "is_tainted") and is_call(g[2][0], "eval")):
-                    continue
-                p = T.pat_peel(arm["p"])
-                if p.get("k") != "Leaf" or len(p["sub"]) != 2:
-                    continue
-                first, second = p["sub"][0]["p"], p["sub"][1]["p"]
-                in_first = any(True for _ in SL.variant_subpatterns(first, "jmp::Jmp", "CBranch"))
-                in_second = any(True for _ in SL.variant_subpatterns(second, "jmp::Jmp", "CBranch"))
-                stops = is_none_adt(sy.ev(arm["b"], env))
-                what = g[2][0][2][1]
-                cond_ok = (what[0] == "field" and what[2].endswith("CBranch.condition")) or what[0] == "var"
-                if in_first and not in_second:
-                    taken = stops and cond_ok
-                if in_second and not in_first:
-                    untaken = stops and cond_ok
         site = F.loc(fn["body"])
-        run.check("R2", "update_jump|taken-conditional", bool(taken), "a conditional jump whose condition depends on the value is a check: propagation along it must stop (None)", site)
-        run.check("R2", "update_jump|untaken-conditional", bool(untaken), "the fall-through edge after a conditional jump on the value (untaken_conditional = Some(CBranch)) is the other outcome of the same check: propagation must stop there too", site)
+        flow = NF.Flow(F, fn)
+        jid, uid = param_id(fn, "jump"), param_id(fn, "untaken_conditional")
+
+        def shape(jump_kind, untaken):
+            """assumption on the inputs: variant of jump.term, and whether an untaken conditional jump exists"""
+            def extra(n):
+                m = T.peel(n)
+                if m.get("k") == "Field" and m.get("fn") == "term" and T.root_var_id(m) == jid:
+                    return ("enum", jump_kind)
+                if m.get("k") in ("Var", "Upvar") and m.get("id") == uid:
+                    return ("enum", "Some" if untaken else "None")
+                return None
+            return extra
+        res_f, nodes_f, hits_f = scenario(fn, {}, False, shape("Branch", True))
+        tests = [x for x in T.walk_fn(F, fn) if taint_test(x)]
+        # which inputs reach a taint test: the jump itself (taken conditional) and the untaken conditional
+        res_by = {jid: scenario(fn, {}, True, shape("CBranch", False))[0], uid: scenario(fn, {}, True, shape("Branch", True))[0]}
+
+        def depends(n, pid, depth=0, seen=None):
+            seen = seen if seen is not None else set()
+            for y in T.walk(n):
+                if y.get("k") in ("Var", "Upvar"):
+                    if y["id"] == pid:
+                        return True
+                    if y["id"] in seen:
+                        continue
+                    seen.add(y["id"])
+                    d = flow.init.get(y["id"])
+                    if d is not None and depth < 6 and depends(d, pid, depth + 1, seen):
+                        return True
+                if y.get("k") == "Closure":
+                    try:
+                        if depends(F.closure_by_path(y["d"])["body"], pid, depth + 1, seen):
+                            return True
+                    except T.AnchorMissing:
+                        pass
+            return False
+        # pattern bindings from `match (&jump.term, untaken_conditional)`-style scrutinees: bindings depend on the scrutinee
+        for n in T.walk_fn(F, fn):
+            if n.get("k") == "Match":
+                for a in n["arms"]:
+                    for b in T.pat_bindings(a["p"]):
+                        flow.init.setdefault(b[0], n["e"])
+            if n.get("k") == "Let":
+                for b in T.pat_bindings(n["p"]):
+                    flow.init.setdefault(b[0], n["e"])
+        for label, pid, what in (("taken-conditional", jid, "a conditional jump whose condition depends on the value is a check: propagation along it must stop (None)"),
+                                 ("untaken-conditional", uid, "the fall-through edge after a conditional jump on the value (untaken_conditional = Some(CBranch)) is the other outcome of the same check: propagation must stop there too")):
+            key = "update_jump|%s" % label
+            reaching = [t_ for t_ in tests if depends(t_, pid) or any(depends(g_["g"], pid) for m_ in T.walk_fn(F, fn) if m_.get("k") == "Match" for g_ in m_["arms"] if "g" in g_ and any(y is t_ for y in T.walk(g_["g"])) and depends(m_["e"], pid))]
+            if not tests:
+                run.violated("R2", key, what + " -- update_jump contains no taint test at all", site)
+            elif not reaching:
+                run.violated("R2", key, what + " -- no taint test depends on `%s`" % ("jump" if pid == jid else "untaken_conditional"), site)
+            else:
+                kinds = [PE.option_kind(x) for x in res_by[pid]]
+                if kinds and all(k_ == "None" for k_ in kinds):
+                    run.holds("R2", key, "", site)
+                elif any(isinstance(k_, tuple) for k_ in kinds):
+                    run.violated("R2", key, what + " -- with a tainted condition a state is still propagated", site)
+                else:
+                    run.undecided("R2", key, "results %s" % kinds, site)
         warns = any(T.is_call(x, "generate_cwe_warning") for x in T.walk_fn(F, fn))
         run.check("R2", "update_jump|no-warning", not warns, "a check of the value is not a dereference: update_jump must not generate warnings", site)
-        # default: state propagated unchanged
-        t = S.value(sy.term(fn["body"], {}))
-        somes = [x for x in S.subterms(t) if isinstance(x, tuple) and x and x[0] == "adt" and x[2] == "Some" and dict(x[3])["0"][0] == "var" and dict(x[3])["0"][1] == "state"]
-        run.check("R2", "update_jump|otherwise-propagate", bool(somes), "jumps that do not depend on the value must propagate the state unchanged", site)
+        kinds = [PE.option_kind(x) for x in res_f]
+        sid = param_id(fn, "state")
+        good = kinds and all(isinstance(k_, tuple) and k_[1] is not None and rootid(k_[1]) == sid for k_ in kinds)
+        if good:
+            run.holds("R2", "update_jump|otherwise-propagate", "", site)
+        elif any(k_ == "None" for k_ in kinds):
+            run.violated("R2", "update_jump|otherwise-propagate", "a jump whose condition does not depend on the value stops the propagation", site)
+        else:
+            run.undecided("R2", "update_jump|otherwise-propagate", "results %s" % kinds, site)
 
     run.guarded("R2", r2)
 
     def r3():
         fn = F.fn("update_call_stub", mod=CTX)
-        sy = S.Sym(F)
-        env = {}
-        t = sy.term(fn["body"], env)
         site = F.loc(fn["body"])
-        ites = [x for x in S.subterms(t) if isinstance(x, tuple) and x and x[0] == "ite" and is_call(x[1], "check_extern_parameters_for_taint")]
-        if not ites:
+        flow = NF.Flow(F, fn)
+        scr = scrutinees_of(fn, "jmp::Jmp")
+        checks = [x for x in T.walk_fn(F, fn) if T.is_call(x, "check_extern_parameters_for_taint")]
+        if not checks:
             run.violated("R3", "update_call_stub|extern-params-checked", "calls to library functions no longer test the DECLARED parameters of the symbol (check_extern_parameters_for_taint)", site)
             return
-        x = ites[0]
-        c = x[1]
-        sym_from_target = any(is_call(y, "get") and any(isinstance(z, tuple) and z and z[0] == "field" and z[2] == "Call.target" for z in S.subterms(y)) for y in S.subterms(c))
-        run.check("R3", "update_call_stub|symbol-by-call-target", sym_from_target, "the extern symbol whose parameters are checked must be looked up by the call's target", site)
-        run.check("R3", "update_call_stub|on-state-before-call", c[2][0][0] == "var" and c[2][0][1] == "state", "parameters are checked on the state before the call", site)
-        tb = x[2]
-        warns = any(is_call(y, "generate_cwe_warning") for y in S.subterms(tb))
-        run.check("R3", "update_call_stub|tainted-param-warns-and-stops", warns and is_none_adt(tb), "a tainted declared parameter must warn and stop", site)
-        eb = x[3]
-        clob = [y for y in S.subterms(eb) if is_call(y, "remove_non_callee_saved_taint")]
-        cc_ok = bool(clob) and any(is_call(z, "get_calling_convention") for z in S.subterms(clob[0]))
-        keeps = S.value(eb)[0] == "adt" and S.value(eb)[2] == "Some"
-        run.check("R3", "update_call_stub|clobber-non-callee-saved", cc_ok and keeps, "after a library call the dependence ends for registers the callee may clobber (remove_non_callee_saved_taint with the symbol's calling convention) and continues for the rest", site)
-        ms = T.find_matches(fn["body"], adt_suffix="jmp::Jmp")
-        if ms:
-            arms = T.arms_for_variant(ms[0], "CallInd")
-            ok = bool(arms) and any(T.is_call(y, "update_call_generic") for y in T.walk(arms[0]["b"]))
-            run.check("R3", "update_call_stub|indirect-calls-generic", ok, "indirect calls must be handled by the calling-convention based check (update_call_generic)", site)
+        c = checks[0]
+        # the symbol is looked up by the call target
+        def mentions_target(n, depth=0):
+            for y in T.walk(n):
+                if y.get("k") in ("Var", "Upvar"):
+                    if y.get("n") == "target":
+                        return True
+                    d = flow.init.get(y["id"])
+                    if d is not None and depth < 5 and mentions_target(d, depth + 1):
+                        return True
+                if y.get("k") == "Field" and y.get("fn") == "target":
+                    return True
+            return False
+        for n in T.walk_fn(F, fn):
+            if n.get("k") == "Match":
+                for a in n["arms"]:
+                    for b in T.pat_bindings(a["p"]):
+                        flow.init.setdefault(b[0], n)
+            if n.get("k") == "Let":
+                for b in T.pat_bindings(n["p"]):
+                    flow.init.setdefault(b[0], n["e"])
+        sym_args = [a for a in c["a"][1:]]
+        sym_from_target = any(mentions_target(a) and any(T.is_call(y, "get") for y in T.walk(flow.definition(a))) or any(T.is_call(y, "get") and mentions_target(y) for y in T.walk(flow.definition(a))) for a in sym_args)
+        (run.holds if sym_from_target else run.undecided)("R3", "update_call_stub|symbol-by-call-target", "the extern symbol whose parameters are checked must be looked up by the call's target", site)
+        sid = param_id(fn, "state")
+        st_arg = [T.root_var_id(a) for a in c["a"]]
+        if sid in st_arg:
+            run.holds("R3", "update_call_stub|on-state-before-call", "", site)
+        else:
+            run.undecided("R3", "update_call_stub|on-state-before-call", "state argument not traced", site)
+        enum_nodes = {k: "Call" for k in scr}
+        res_t, nodes_t, _ = scenario(fn, enum_nodes, True)
+        res_f, nodes_f, _ = scenario(fn, enum_nodes, False)
+        kinds_t = [PE.option_kind(x) for x in res_t]
+        warns = any(T.is_call(x, "generate_cwe_warning") for x in nodes_t)
+        if kinds_t and all(k_ == "None" for k_ in kinds_t) and warns:
+            run.holds("R3", "update_call_stub|tainted-param-warns-and-stops", "", site)
+        elif any(isinstance(k_, tuple) for k_ in kinds_t):
+            run.violated("R3", "update_call_stub|tainted-param-warns-and-stops", "with a tainted declared parameter a state is still propagated: a tainted parameter must warn and stop", site)
+        elif kinds_t and all(k_ == "None" for k_ in kinds_t) and not warns:
+            run.violated("R3", "update_call_stub|tainted-param-warns-and-stops", "with a tainted declared parameter the propagation stops without a warning", site)
+        else:
+            run.undecided("R3", "update_call_stub|tainted-param-warns-and-stops", "results %s" % kinds_t, site)
+        kinds_f = [PE.option_kind(x) for x in res_f]
+        clob = [y for y in nodes_f if T.is_call(y, "remove_non_callee_saved_taint")]
+        cc_ok = bool(clob) and any(any(T.is_call(z, "get_calling_convention") for z in T.walk(flow.definition(a))) or any(T.is_call(z, "get_calling_convention") for z in T.walk(a)) for a in clob[0]["a"])
+        keeps = kinds_f and all(isinstance(k_, tuple) for k_ in kinds_f)
+        if cc_ok and keeps:
+            run.holds("R3", "update_call_stub|clobber-non-callee-saved", "", site)
+        elif not clob:
+            run.violated("R3", "update_call_stub|clobber-non-callee-saved", "after a library call the dependence ends for registers the callee may clobber: remove_non_callee_saved_taint is not reachable for an untainted call", site)
+        elif any(k_ == "None" for k_ in kinds_f):
+            run.violated("R3", "update_call_stub|clobber-non-callee-saved", "a library call without tainted parameters stops the propagation", site)
+        else:
+            run.undecided("R3", "update_call_stub|clobber-non-callee-saved", "calling convention argument not traced", site)
+        if scr:
+            enum_nodes = {k: "CallInd" for k in scr}
+            _, nodes_i, _ = scenario(fn, enum_nodes, False)
+            ok = any(T.is_call(y, "update_call_generic") for y in nodes_i)
+            (run.holds if ok else run.violated)("R3", "update_call_stub|indirect-calls-generic", "indirect calls must be handled by the calling-convention based check (update_call_generic)", site)
 
     run.guarded("R3", r3)
 
@@ -272,7 +462,7 @@ def run(run):
                             if branch is not None and arm.get("g") is branch[1]:
                                 warned = any(T.is_call(x, "generate_cwe_warning") for x in T.walk(arm["b"]))
                 run.check("R7", "%s|stop-has-warning|%d" % (name, n), warned, "%s stops the propagation after a positive taint test without generating the warning" % name, F.loc(node))
-        run.floor("stops after positive taint tests", n, 3)
+        run.floor("stops after positive taint tests", n, 1)
 
     run.guarded("R7", r7)
 
